@@ -83,7 +83,8 @@ def install():
 #   open(path, "rb")                    -> same, a byte handle whose read() is bytes_of(path)
 #   io.TextIOWrapper(bytes_io, encoding=e) -> a NEW text handle over the lines of the byte stream, READ FROM ITS CURRENT POSITION:
 #                                          the model demands (named safety obligation) that the stream is at position 0
-#   bytes_io.read() -> bytes_of(stream), leaves the position at the end; bytes_io.seek(0, 0) rewinds; other seeks are refused
+#   bytes_io.read() -> bytes_of(stream), leaves the position at the end; bytes_io.read(n) -> first_bytes_of(stream, n), an abstract value of
+#                                          its own, leaves the position inside; bytes_io.seek(0, 0) rewinds; other seeks are refused
 #   handle.close() is logged; a handle used as a context manager returns itself and closes on exit without suppressing
 #   chardet.detect(data) -> {"encoding": some non-empty abstract string | None, "confidence": some real in [0, 1]}
 # Every call is recorded in eng.ghost["io"] (a list of event dicts) so that contracts can say WHICH handle was opened /
@@ -154,8 +155,8 @@ def _ctx_exit(eng, recv, args, kwargs):
 #   iteration / iter(f) / enumerate(f, start) / list(f)   lines c .. n-1, lazily: delivering line k may raise UnicodeDecodeError
 #   next(f)                        line c (StopIteration at the end);   f.readline() : line c, or "" at the end (a line is never empty)
 #   f.readlines() / readlines(hint <= 0 | None)   the list of ALL remaining lines
-#   f.readlines(hint > 0)          a PREFIX of the remaining lines: the shortest one whose total size reaches `hint` characters -- the
-#                                  model: P lines, 1 <= P <= min(rest, hint) when anything is left (line sizes are not modelled, a
+#   f.readlines(hint > 0)          a PREFIX of the remaining lines: the shortest one whose total size EXCEEDS `hint` characters -- the
+#                                  model: P lines, 1 <= P <= min(rest, hint + 1) when anything is left (line sizes are not modelled, a
 #                                  line has at least one character), i.e. possibly FEWER than all of them
 #   itertools.islice(f, k)         the next min(k, rest) lines, lazily
 #   f.read() / read(-1) / read(None)  the remaining text: .splitlines(keepends=True) are the remaining lines, .splitlines() /
@@ -169,8 +170,10 @@ def _ctx_exit(eng, recv, args, kwargs):
 # (`seq_start`), so that a contract can say WHICH lines of the source a loop over that sequence has dealt with.
 IO_LINES = ("io-model (line reading): a text handle has a ghost cursor (lines consumed); iteration / next / readline / readlines() / read() + "
             "splitlines(keepends=True) / itertools.islice deliver the lines from the cursor on, in order, each exactly once; readlines(hint > 0) "
-            "delivers a non-empty PREFIX of them (at most `hint` lines), not necessarily all; a line is never the empty string; a bulk read raises "
-            "UnicodeDecodeError iff one of the lines it covers does (pyvc/ext_C01.py, cross-check tools/xcheck_io_lines.py)")
+            "delivers a non-empty PREFIX of them (at most `hint` + 1 lines), not necessarily all; a line is never the empty string; a bulk read raises "
+            "UnicodeDecodeError iff one of the lines it covers does; read().splitlines(keepends=True) = the lines ASSUMES a text without the separators "
+            "only str.splitlines knows (\\v \\f \\x1c-\\x1e \\x85 \\u2028 \\u2029, a lone \\r on a non-translating handle) "
+            "(pyvc/ext_C01.py, cross-check tools/xcheck_io_lines.py)")
 CHOMP = z3.Function("line_without_its_line_break", _I, _I)
 ENDS_NL = z3.Function("text_ends_with_a_line_break", _I, _B)
 
@@ -335,7 +338,7 @@ def _readlines(eng, recv, args, kwargs):
             raise Unsupported("readlines(hint) with a non-integer hint")
         hz = to_z3(hint, "int")
         count = z3.Const(fresh_name("lines_returned_by_readlines_hint"), _I)
-        eng.assume(z3.If(hz <= 0, count == rest, z3.And(count >= 0, count <= rest, count <= hz, z3.Implies(rest > 0, count >= 1))))
+        eng.assume(z3.If(hz <= 0, count == rest, z3.And(count >= 0, count <= rest, count <= hz + 1, z3.Implies(rest > 0, count >= 1))))
     _decode_all(eng, src, c, c + count)
     cur.z, cur.seq_start = z3.simplify(c + count), c
     events(eng).append(dict(op="lines", handle=recv, how="readlines", start=c, count=z3.simplify(count), hint=hint))
@@ -459,8 +462,17 @@ def _list_of(eng, recv):
     return _readlines(eng, recv, [], {})
 
 
+def _iter_sentinel(eng, recv, method, sentinel):
+    """iter(f.readline, ""): readline until it returns the empty string, i.e. the lines from the cursor on"""
+    if method != "readline" or not (isinstance(sentinel, str) and sentinel == ""):
+        raise Unsupported(f"iter(handle.{method}, sentinel) other than iter(f.readline, '')")
+    it = LineIter(recv)
+    recv.last_iter = it
+    return it
+
+
 def _line_proto(extra=None):
-    proto = {"__iter_seq__": _iter_seq, "__iter_done__": _iter_done, "__next__": _next, "__list__": _list_of,
+    proto = {"__iter_seq__": _iter_seq, "__iter_done__": _iter_done, "__next__": _next, "__list__": _list_of, "__iter_sentinel__": _iter_sentinel,
              "readline": _readline, "readlines": _readlines, "read": _read, "seek": _seek,
              "readable": lambda eng, recv, a, k: True, "__iter__": lambda eng, recv, a, k: recv,
              "close": _close, ".closed": _closed, "__enter__": _ctx_enter, "__exit__": _ctx_exit, "__isinstance__": (_io.TextIOBase,)}
@@ -505,15 +517,36 @@ def _islice(prev):
     return model
 
 
+BYTES_PREFIX = z3.Function("first_bytes_of", _I, _I, _I)
+
+
+def _whole(args, kwargs):
+    """read() / read(-1) / read(None): everything;  read(n): a size limit (anything else is refused)"""
+    if kwargs or len(args) > 1:
+        raise Unsupported("read arguments")
+    if not args or args[0] is None or (isinstance(args[0], int) and not isinstance(args[0], bool) and args[0] < 0):
+        return True
+    if isinstance(args[0], bool) or not (isinstance(args[0], int) or (isinstance(args[0], Sym) and args[0].kind == "int")):
+        raise Unsupported("read(n) with a non-integer size")
+    return False
+
+
 def byte_stream(name="byte_stream"):
     """a caller-supplied io.BytesIO: abstract bytes; only read() (everything) and seek(0, 0) are modelled"""
     def read(eng, recv, args, kwargs):
-        if args or kwargs:
-            raise Unsupported("BytesIO.read(n)")
         eng.assumptions.add(IO_BYTES)
-        _positions(eng)[recv.z.get_id()] = "end"
-        events(eng).append(dict(op="read", handle=recv))
-        return Sym(BYTES_OF(recv.z), "ref")
+        if _whole(args, kwargs):
+            if position(eng, recv) != 0:
+                raise Unsupported("BytesIO.read() of a stream that is not at its start")
+            _positions(eng)[recv.z.get_id()] = "end"
+            events(eng).append(dict(op="read", handle=recv))
+            return Sym(BYTES_OF(recv.z), "ref")
+        # read(n): the first n bytes (an abstract value of its own: whatever is computed from it is not computed from all the bytes)
+        if position(eng, recv) != 0:
+            raise Unsupported("BytesIO.read(n) of a stream that is not at its start")
+        _positions(eng)[recv.z.get_id()] = "inside"
+        events(eng).append(dict(op="read", handle=recv, size=args[0]))
+        return Sym(BYTES_PREFIX(recv.z, to_z3(args[0], "int")), "ref")
 
     def seek(eng, recv, args, kwargs):
         if kwargs or tuple(args) not in ((0,), (0, 0)):
@@ -549,8 +582,15 @@ def _open_read(prev):
         kw = {k: v for k, v in kwargs.items() if k != "mode"}
         if mode == "rb":
             def read(e, recv, a, k):
-                if a or k:
-                    raise Unsupported("file.read(n)")
+                if not _whole(a, k):
+                    if getattr(recv, "was_read", False):
+                        raise Unsupported("a second read of a byte handle")
+                    recv.was_read = True
+                    events(e).append(dict(op="read", handle=recv, size=a[0]))
+                    return Sym(BYTES_PREFIX(name.z, to_z3(a[0], "int")), "ref")
+                if getattr(recv, "was_read", False):
+                    raise Unsupported("a second read of a byte handle")
+                recv.was_read = True
                 events(e).append(dict(op="read", handle=recv))
                 return Sym(BYTES_OF(name.z), "ref")
 
